@@ -260,6 +260,51 @@ def accept_sequence(a2: int, t2: int, s0: bool, s1: bool) -> bool:
     return ok
 
 
+SERVE_IDS = (1, 3, 5, 7, 9)
+
+
+@cond(bounds='ONE association, several messages: abstract syntax A is proposed on context 1 [implicit LE], 3 [explicit LE] and 5 '
+             '[a syntax the entity does not support - rejected], B on 7; then two messages (each of the class its context was '
+             'proposed for) arrive one after the other on contexts chosen by symbolic selectors from {1, 3, 5, 7, 9 (never proposed)}: every '
+             'message is served iff ITS context was accepted for its class, by the service of that class, with that '
+             'context\'s id and transfer syntax - whatever was served before it on the association', timeout=240)
+def serve_sequence(i1: int, i2: int) -> bool:
+    """
+    pre: 0 <= i1 <= 4 and 0 <= i2 <= 4
+    post: _
+    """
+    c1, c2 = SERVE_IDS[pick(i1, 0, 4)], SERVE_IDS[pick(i2, 0, 4)]
+    ae, svcs = make_ae(3, (True, True, False, False))
+    ctxs = [(1, ABS[0], [TSU[0]]), (3, ABS[0], [TSU[1]]), (5, ABS[0], [TSU[3]]), (7, ABS[1], [TSU[1], TSU[0]])]
+    rq = build_request(ctxs)
+    accepted = {1: (ABS[0], [TSU[0]]), 3: (ABS[0], [TSU[1]]), 7: (ABS[1], [TSU[1], TSU[0]])}
+    # every message is of the class its context was proposed for (a message of another class on an accepted context is a
+    # protocol violation by the peer; the library serves it by the message's class - observed, not judged here)
+    msgs = [(Msg(ABS[1] if c == 7 else ABS[0]), c) for c in (c1, c2)]
+    acc, err = serve(ae, rq, msgs)
+    calls = [(s_.name, c) for s_ in svcs for c in s_.calls]
+    # what must have happened, message by message (an unservable message ends the association with ClassNotSupportedError)
+    want = []
+    refused = False
+    for m, cid in msgs:
+        if cid in accepted and accepted[cid][0] == m.sop_class_uid:
+            want.append(('A' if m.sop_class_uid == ABS[0] else 'B', cid, accepted[cid][1]))
+        else:
+            refused = True
+            break
+    ok = len(calls) == len(want) and (isinstance(err, exceptions.ClassNotSupportedError) if refused else True)
+    if ok:
+        # calls are grouped by service; compare as multisets in arrival order per service
+        for name in ('A', 'B'):
+            got = [(c[0].id, str(c[0].supported_ts), str(c[0].sop_class)) for n_, c in calls if n_ == name]
+            exp = [w for w in want if w[0] == name]
+            ok = ok and len(got) == len(exp)
+            for g, w in zip(got, exp):
+                ok = ok and g[0] == w[1] and g[1] in w[2] and g[2] == (ABS[0] if name == 'A' else ABS[1])
+    deep(ok and c1 == 1 and c2 == 3)
+    return ok
+
+
 @cond(bounds='AE titles of the request: symbolic strings of 0..2 characters (printable ASCII); requestor maximum length '
              'symbolic; the reply repeats both titles and the application context', timeout=120)
 def accept_titles(called: str, calling: str, mx: int) -> bool:
